@@ -1013,7 +1013,7 @@ func (e *env) runScenario(kind string, nsubs, nitems int) {
 	name := fmt.Sprintf("scenario %s subs=%d items=%d", kind, nsubs, nitems)
 	var res *scenResult
 	var line, impl, model string
-	for attempt := 0; attempt < 3; attempt++ {
+	for attempt := 0; attempt < 2; attempt++ {
 		res = e.scenario(kind, nsubs, nitems)
 		if res.infra != "" {
 			continue
@@ -1159,7 +1159,24 @@ func main() {
 			list = append(list, sc{kinds[k], 1 + e.rnd.Intn(3), 1 + e.rnd.Intn(3)})
 		}
 	}
+	// a broken tree makes scenarios slow (time-outs, retries): once an unclassified
+	// oracle failure or a disagreement is on record the verdict is settled
+	settled := func() bool {
+		if len(r.Disagreements) > 0 {
+			return true
+		}
+		for _, f := range r.OracleFailures {
+			if f.Sig == "" {
+				return true
+			}
+		}
+		return false
+	}
 	for _, s := range list {
+		if settled() {
+			r.Notes = append(r.Notes, "remaining scenarios skipped after the first unclassified failure / disagreement")
+			break
+		}
 		e.runScenario(s.kind, s.a, s.b)
 		if r.InfraError != "" {
 			break
@@ -1169,7 +1186,7 @@ func main() {
 		// so with five subscriptions the colliding orders come up in 4 of 8 runs;
 		// the witness scenario is run again until one did
 		if s.kind == "restart" && s.a == 5 {
-			for i := 0; i < 5 && r.InfraError == ""; i++ {
+			for i := 0; i < 5 && r.InfraError == "" && !settled(); i++ {
 				confirmed := false
 				for _, f := range r.FindingsConfirmed {
 					if f == sigRecreate {
